@@ -9,7 +9,6 @@ NOT_APPLICABLE = {
  "C17": "Differential against an external reference disassembler that is not installed and has no contract; nothing to verify against.",
  "C18": "Differential against the host CPU executing native code; the oracle is hardware, not a specification a verifier can consume.",
  "C19": "Differential against a reference emulator that is not present; no machine-readable ISA specification in the sandbox.",
- "C20": "Agreement of three JIT back ends (LLVM cannot even run: no llvmlite) through generated C, a C extension and CPython; whole-system, cross-language.",
  "C41": "Dynamic symbolic execution of x86 programs under a jitter with a solver in the loop; whole-system across Python, C and z3.",
 }
 
